@@ -59,6 +59,21 @@ def feas_tol(rec):
         "feasibility_tol", math.sqrt(EPS)))
 
 
+def user_of(rec, pb, x):
+    """User-space image of the solver's point x: the documented map computed
+    by the harness (truth.user_point) whenever it applies; Problem.build_x
+    (code under test) only as a fallback for inconsistent bounds."""
+    try:
+        sc = bool((rec.run.settings.get("options")
+                   or completed_options(rec) or {}).get("scale"))
+        y = truth.user_point(rec.built, sc, np.asarray(x, dtype=float))
+    except Exception:  # noqa: BLE001
+        y = None
+    if y is None:
+        return np.array(pb.build_x(x), dtype=float)
+    return y
+
+
 def eval_table(rec):
     """Per evaluation round (from the Problem.__call__ tap): user point,
     raw objective value, raw constraint values, true violation + slack,
@@ -84,7 +99,7 @@ def eval_table(rec):
                 row["f"] = float(objs[0]["v"])
         if row["x"] is None and not any(e["t"] == "con" for e in sl) \
                 and b.fun is None and ev["exc"] in (None, "CallbackSuccess"):
-            row["x"] = np.array(ev["pb"].build_x(ev["x"]), dtype=float)
+            row["x"] = user_of(rec, ev["pb"], ev["x"])
         cvals = []
         for j in range(len(b.nl)):
             cj = [e for e in sl if e["t"] == "con" and e["j"] == j
@@ -650,7 +665,7 @@ def o_c06(rec):
             # no user function called in this round (fun=None and every
             # constraint call served by the one-entry cache): the user point
             # is only known through the pure map build_x
-            point = np.array(ev["pb"].build_x(ev["x"]), dtype=float)
+            point = user_of(rec, ev["pb"], ev["x"])
         for j in range(len(b.nl)):
             cj = [e for e in sl if e["t"] == "con" and e["j"] == j]
             if point is None and cj:
